@@ -9,7 +9,7 @@ WITNESS = os.path.join(C.VERIF, "witness")
 F15 = ("State::store_ref(&impl Any) erases the borrow: the safe program witness/src/bin/w_dangling_ref.rs "
        "(store_ref(&s); drop s; try_read_ref()) compiles under #![forbid(unsafe_code)] and reads a dropped object")
 MUST_REJECT = ["w_ref_outlives_context", "w_mutate_state_while_ref_out", "w_bytes_outlive_input",
-               "w_context_outlives_input"]
+               "w_context_outlives_input", "w_context_is_send"]
 
 
 def cargo_check(bin_name):
@@ -41,7 +41,7 @@ def check(rep, tier, seed):
         ok, errs, out = cargo_check(w)
         verdicts[w] = "accepted" if ok else "rejected: " + (errs[0][:90] if errs else "?")
         borrow = any(e.startswith(("error[E0597]", "error[E0499]", "error[E0502]", "error[E0505]", "error[E0716]", "error: lifetime"))
-                     for e in errs)
+                     for e in errs) or (w == "w_context_is_send" and any(e.startswith("error[E0277]") for e in errs))
         if ok:
             bad.append((f"witness/src/bin/{w}.rs", "compiles", "a lifetime-escape witness written without unsafe code is accepted by the compiler"))
         elif not borrow:
@@ -145,7 +145,8 @@ def check(rep, tier, seed):
         "rule": "a catalogue of client programs written under #![forbid(unsafe_code)]: a control (must compile), four "
                 "lifetime-escape witnesses (reference from try_read_ref outliving the context; table mutated while such a "
                 "reference is alive; bytes from read_bytes outliving the buffer; context outliving its input) that must be "
-                "rejected by the borrow checker, and the dangling-reference witness of F15; plus the unsafe decoding paths "
+                "rejected by the borrow checker, a witness requiring the contexts to be Send (must be rejected: the object "
+                "table holds raw pointers to possibly thread-bound client objects), and the dangling-reference witness of F15; plus the unsafe decoding paths "
                 "([u8;N], [T;N], Vec<u8>, Bytes) on every count/length mismatch in release and debug, compared with the model",
         "samples": list(verdicts.items())[:3] + lines[:3], "programs": len(verdicts), "compiler_verdicts": verdicts, "miri": miri,
         "disagreements_checked": 2 * len(decs), "disagreements": len(dis),
